@@ -43,7 +43,7 @@ def gen_compsim(rng: random.Random, kinds=None):
             "hist_dtype": rng.choice(["float64"] * 8 + ["float32", "int"]),
             "sampler": calsim.gen_sampler_spec(rng, kind, bs), "ctor_seed": rng.randrange(2 ** 31),
             "hist_seed": rng.randrange(2 ** 31), "hist_n": rng.randint(bs, bs + 12), "loss_mode": rng.choice(["ties", "negpos", "plain"]),
-            "ops": ops}
+            "ops": ops, "hist_buffer": rng.random() < 0.25}
 
 
 def run_compsim(scn, res: Result, check_fn=None):
@@ -76,11 +76,32 @@ def run_compsim(scn, res: Result, check_fn=None):
         res.stats["history-dtype:int"] += 1
     space_spec = scn["space"]
     n_samples = 0
+    lent = []            # every array lent at an earlier call, with its content at that time: the caller never touches them again
+    cap = None
+    if scn.get("hist_buffer"):
+        # the caller keeps its history in one preallocated buffer and lends views of the filled part
+        cap = len(pts) + 8 + sum((o[1] if o[0] == "append" else 8) for o in scn["ops"])
+        buf_p = np.zeros((cap, pts.shape[1]), dtype=pts.dtype)
+        buf_l = np.zeros(cap)
+        buf_p[:len(pts)] = pts
+        buf_l[:len(losses)] = losses
+        pts, losses = buf_p[:len(pts)], buf_l[:len(losses)]
+        res.stats["history-lent-as-buffer-view"] += 1
+
+    def grow(new_p, new_l):
+        n, m = len(pts), len(new_p)
+        if cap is None or n + m > cap:
+            return np.vstack((pts, new_p)), np.hstack((losses, new_l))
+        buf_p[n:n + m] = new_p
+        buf_l[n:n + m] = new_l
+        return buf_p[:n + m], buf_l[:n + m]
     for oi, op in enumerate(scn["ops"]):
         if op[0] == "space":
             space_spec = op[1]
             space = make_space(space_spec)
             pts = grid_points(space, nrng, max(len(pts), 1)).astype(pts.dtype)
+            losses = losses.copy()
+            cap = None
             res.stats["space-switch@sampler"] += 1
             continue
         if op[0] == "sample":
@@ -99,6 +120,15 @@ def run_compsim(scn, res: Result, check_fn=None):
                 which = "points" if pts.tobytes() != p0.tobytes() else "losses"
                 res.add("history-modified", f"{cls}:{which}", f"{cls}.sample() modified the {which} array it was lent (op {oi})")
                 pts, losses = p0, l0
+                cap = None
+            for arr, snap, which, at in lent:
+                if arr.tobytes() != snap:
+                    res.add("history-modified", f"{cls}:{which}:earlier-call",
+                            f"{cls}.sample() (op {oi}) modified the {which} array it had been lent at op {at} (the caller has not touched it since)")
+                    lent.clear()
+                    break
+            lent.append((pts, pts.tobytes(), "points", oi))
+            lent.append((losses, losses.tobytes(), "losses", oi))
             if out.shape != (sampler.batch_size, space.dims):
                 res.add("shape", cls, f"{cls} returned shape {out.shape}, expected {(sampler.batch_size, space.dims)} (op {oi}, call #{n_samples})")
                 break
@@ -126,12 +156,10 @@ def run_compsim(scn, res: Result, check_fn=None):
                 check_fn(space, sampler, pts, losses, out, res)
             # the calibrator appends the batch with its losses
             new_l = gen_losses(nrng, len(out), scn["loss_mode"])
-            pts = np.vstack((pts, out))
-            losses = np.hstack((losses, new_l))
+            pts, losses = grow(out.astype(pts.dtype) if cap is not None else out, new_l)
         elif op[0] == "append":
             extra = grid_points(space, nrng, op[1])
-            pts = np.vstack((pts, extra))
-            losses = np.hstack((losses, gen_losses(nrng, op[1], scn["loss_mode"])))
+            pts, losses = grow(extra.astype(pts.dtype) if cap is not None else extra, gen_losses(nrng, op[1], scn["loss_mode"]))
         elif op[0] == "restart":
             sampler = restart(sampler)
             res.stats["restart@sampler"] += 1
@@ -143,6 +171,10 @@ def run_compsim(scn, res: Result, check_fn=None):
 
 
 def shrink_compsim(scn):
+    if scn.get("hist_buffer"):
+        c = copy.deepcopy(scn)
+        c["hist_buffer"] = False
+        yield c
     for i in range(len(scn["ops"]) - 1, -1, -1):
         c = copy.deepcopy(scn)
         del c["ops"][i]
